@@ -113,30 +113,19 @@ def natsOf (xs : List Sexp) : List Nat :=
     | .atom a => a.toNat?
     | _ => none
 
-/-- SQL `c = v` of the DELETE predicate (NULL never equal) -/
-def sqlEqB (a b : Val) : Bool := sqlCmp a b == some .eq
-
-def applyDelete (c : Nat) (v1 v2 : Val) (rs : RowSet) : RowSet :=
-  let hit := rs.rows.zipIdx.filterMap fun (r, i) =>
-    if sqlEqB (Row.at r c) v1 || sqlEqB (Row.at r c) v2 then some i else none
-  { rs with dead := rs.dead ++ hit.filter (fun i => !rs.dead.contains i) }
-
-/-- replay of the write history: live row-sets (sorted by id) and the next row-set id -/
-def replayOps (primary : List Nat) : List Sexp → List RowSet × Nat → List RowSet × Nat
-  | [], acc => acc
-  | op :: rest, (acc, nextId) =>
-    match op with
+/-- the write history as `StoreOp`s (the model's `replayStore` is what the theorems are about) -/
+def storeOpsOf (ops : List Sexp) : List StoreOp :=
+  ops.filterMap fun op => match op with
     | .list (.atom "ins" :: rows) =>
-      let rs := rows.filterMap fun r => match r with
+      some (.ins (rows.filterMap fun r => match r with
         | .list vs => valsOf vs
-        | _ => none
-      replayOps primary rest (acc ++ [{ id := nextId, rows := memtableFlush primary rs, dead := [], blocks := [] }], nextId + 1)
+        | _ => none))
     | .list [.atom "del", .atom c, .atom v1, .atom v2] =>
       match c.toNat?, Val.ofCanon v1, Val.ofCanon v2 with
-      | some c', some a, some b => replayOps primary rest (acc.map (applyDelete c' a b), nextId)
-      | _, _, _ => replayOps primary rest (acc, nextId)
-    | .list [.atom "compact"] => replayOps primary rest (compactAll primary nextId acc)
-    | _ => replayOps primary rest (acc, nextId)
+      | some c', some a, some b => some (.del c' a b)
+      | _, _, _ => none
+    | .list [.atom "compact"] => some .compact
+    | _ => none
 
 def field (name : String) (xs : List Sexp) : Option (List Sexp) :=
   xs.findSome? fun x => match x with
@@ -542,7 +531,7 @@ def answer (line : String) : String :=
         | some xs => natsOf xs
         | none => []
       let t : TableMeta := { primary := primary, sortedByPk := true, intCols := intCols }
-      let all := (replayOps primary ops ([], 0)).1.map (attachBlocks ((field "blocks" rest).getD []))
+      let all := (replayStore primary (storeOpsOf ops)).1.map (attachBlocks ((field "blocks" rest).getD []))
       let lay := (natsOf snap).filterMap fun i => all.find? (·.id == i)
       let scans := (field "scans" rest).getD []
       "(case " ++ id ++ " " ++ showLayout lay ++ " " ++ " ".intercalate (qs.map (answerQuery t lay)) ++
